@@ -105,7 +105,8 @@ impl Definition {
                     parser
                         .err(
                             "Callback has been already set",
-                            span.join(name.span()).unwrap(),
+                            // `Span::join` returns `None` on stable compilers
+                            span.join(name.span()).unwrap_or(span),
                         )
                         .err("Previous callback set here", previous.span());
                 }
